@@ -13,3 +13,5 @@ open GoSQLXModel
 #print axioms Props.C03.gen_alias_classes_agree
 #print axioms Props.C03.gen_classes_present
 #print axioms Props.C03.expression_round_trip
+#print axioms Props.C03.eof_stops
+#print axioms Props.C03.text_determines_tree
